@@ -10,7 +10,7 @@ import (
 )
 
 // Val is an operand or a result in the harness's own representation (never an origami type).
-// K: int float str bool null arr0 arr1 amap obj   (operands)
+// K: int float str bool null arr0 arr1 amap obj fn   (operands; fn = a closure)
 //
 //	arr amap obj other:<GoType> nil               (additional result kinds)
 type Val struct {
@@ -162,6 +162,8 @@ func (v Val) String() string {
 		return "['k'=>1]"
 	case "obj":
 		return "object(C03Obj)"
+	case "fn":
+		return "closure"
 	}
 	return v.K
 }
@@ -229,6 +231,8 @@ func (v Val) Lit() (string, bool) {
 		return "['k' => 1]", true
 	case "obj":
 		return "new C03Obj()", true
+	case "fn":
+		return "function () { return 1; }", true
 	}
 	return "", false
 }
@@ -264,7 +268,7 @@ func poolValues() []Val {
 	for _, s := range []string{"", "0", "a", "b", "abc", "ab", "A", " ", "1e1", "10", "1", "-1", "1.5", "abc ", "a0"} {
 		p = append(p, vStr(s))
 	}
-	p = append(p, vBool(true), vBool(false), vNull(), Val{K: "arr0"}, Val{K: "arr1"}, Val{K: "amap"}, Val{K: "obj"})
+	p = append(p, vBool(true), vBool(false), vNull(), Val{K: "arr0"}, Val{K: "arr1"}, Val{K: "amap"}, Val{K: "obj"}, Val{K: "fn"})
 	return p
 }
 
@@ -372,7 +376,7 @@ func randPair(r *rand.Rand, pool []Val) (Val, Val) {
 		}
 		return vStr(a), vStr(b)
 	}
-	kinds := []string{"int", "float", "str", "bool", "null", "arr0", "arr1", "amap", "obj"}
+	kinds := []string{"int", "float", "str", "bool", "null", "arr0", "arr1", "amap", "obj", "fn"}
 	pick := func() Val {
 		if r.Intn(3) == 0 {
 			return pool[r.Intn(len(pool))]
